@@ -36,7 +36,7 @@ def _spec(draw):
       'ey': draw(st.lists(st.integers(-128, 128), min_size=n, max_size=n)),
       'lx': draw(st.sampled_from([1, 2, 3, 5])), 'ly': draw(st.sampled_from([1, 2, 4, 7, -1])),
       'ax': draw(st.sampled_from([0, 4, 64, 512])), 'ay': draw(st.sampled_from([4, 16, 64, 256, 1024, 4096])),
-      'k': draw(st.integers(-8, 8)), 'sa': draw(st.integers(-1000, 1000)), 'sb': draw(st.integers(-1000, 1000)),
+      'k': draw(st.one_of(st.integers(-8, 8), st.sampled_from([-40, -30, -20, 20, 30, 40]))), 'sa': draw(st.integers(-1000, 1000)), 'sb': draw(st.integers(-1000, 1000)),
       'spread': draw(st.lists(st.integers(-64, 64), min_size=n_test, max_size=n_test)),
       'tnoise': draw(st.lists(st.integers(-64, 64), min_size=n_test, max_size=n_test)),
       'rhos': sorted(set(draw(st.lists(st.integers(0, 999), min_size=2, max_size=5)))),
